@@ -22,7 +22,12 @@ ASSUMPTIONS = ['cell values are compared through the flattened solution (every n
 WATCHDOG_S = 120
 
 TRICKY = ['=x', '=1+1', '=a"b', '="q"', '{=x}', '{=SUM(1)}', '#N/A', '#REF!', '#DIV/0!', '#EMPTY', '#empty', 'a"b', '""', "it's", "'lead",
-          'two\nlines', ' lead', 'trail ', 'TRUE', 'true', '1e3', '007', '=', '==x', '@x']
+          'two\nlines', ' lead', 'trail ', 'TRUE', 'true', '1e3', '007', '=', '==x', '@x',
+          # the special spellings again, padded with blanks: text that merely resembles a marker, a formula, an error or a logical
+          ' #EMPTY', '#empty ', '\t#EMPTY', ' =x', '=x ', ' #N/A', '#N/A ', ' TRUE', ' 1e3', ' {=x}']
+PADDED = {' #EMPTY': 'text-padded-empty-marker', '#empty ': 'text-padded-empty-marker', '\t#EMPTY': 'text-padded-empty-marker', ' =x': 'text-padded-formula-like',
+          '=x ': 'text-formula-like', ' #N/A': 'text-padded-error-like', '#N/A ': 'text-padded-error-like', ' TRUE': 'text-padded-logical-like',
+          ' 1e3': 'text-padded-number-like', ' {=x}': 'text-padded-formula-like'}
 TRICKY_CLASS = {
     '=x': 'text-formula-like', '=1+1': 'text-formula-like', '=a"b': 'text-formula-quote', '="q"': 'text-formula-quote',
     '{=x}': 'text-array-formula-like', '{=SUM(1)}': 'text-array-formula-like', '#N/A': 'text-error-like', '#REF!': 'text-error-like',
@@ -30,6 +35,7 @@ TRICKY_CLASS = {
     "it's": 'text-apostrophe', "'lead": 'text-apostrophe', 'two\nlines': 'text-newline', ' lead': 'text-space', 'trail ': 'text-space',
     'TRUE': 'text-logical-like', 'true': 'text-logical-like', '1e3': 'text-number-like', '007': 'text-number-like', '=': 'text-equals-only',
     '==x': 'text-formula-like', '@x': 'text-at'}
+TRICKY_CLASS.update(PADDED)
 # -1e-300 is excluded by construction: a constant below 5e-16 is rounded to 0 on load (listed finding F36, whose
 # example stays in the replay tier); its knock-on effects (0/x = #DIV/0!) would otherwise need a broad signature
 NUMS = [-0.0, 1e-7, 1.5e-10, 2.0 ** 53 + 2, 1e15, 1e22, 123456789.123456789, 0.1, 1 / 3.0, 1e300]
